@@ -9,7 +9,16 @@ def run(tier, seed):
       rule=('adaptively generated RPC sequences (17 RPC kinds, ~2/3 legal calls, every error kind reached) over 2 owners, 3 studies '
             '(one name a prefix of another), 3 workers, scripted Pythia; run on RAM and in-memory SQLite, every step compared '
             'with the model (response, datastore-call trace) plus final stored state; non-trivial = at least 3 successful calls'),
-      monitors=[svcrun.wrap(svcmon.c01_step)], backends=('ram', 'sqlmem'))
+      monitors=[svcrun.wrap(svcmon.c01_step)], backends=('ram', 'sqlmem'), extra=failing_writes_between_updates)
+
+
+def failing_writes_between_updates(rep, tier, seed, known, r):
+  """Sequences dense in calls that fail half-way inside the datastore (metadata updates naming a missing trial, repeated study
+  creation) between trial updates: a state change that was acknowledged must survive whatever fails afterwards."""
+  from harness import svcmon
+  return svcrun.service_part(rep, 'C01', r, tier, known, monitors=[svcrun.wrap(svcmon.c01_step)], backends=('ram', 'sqlmem'),
+                             nseq_quick=25, nseq_thorough=200, length=(10, 24), tag='fw',
+                             profile={'md': 0.3, 'owner2': 0.0, 'delete_study': 0.0, 'suggest': 0.25, 'fail': 0.05})
 
 
 def replay(path):
